@@ -466,6 +466,24 @@ func (s *Scenario) checkClean(before *stageSnap) {
 	// nothing truncated
 	for rel, e := range before.entries {
 		if a, ok := after.entries[rel]; ok && !e.dir && a.size < e.size && !strings.HasSuffix(rel, ".cmp") {
+			// a validator that was still at work when the cleaning began may have put a newer,
+			// shorter version of the name in its place (steps are not separated by settling):
+			// then the staged file is, byte for byte, that other version
+			superseded := false
+			for _, ext := range []string{".wait", ".full", ".part"} {
+				if strings.HasSuffix(rel, ext) {
+					data := w.readStage(rel)
+					for _, v := range w.versions[strings.TrimSuffix(rel, ext)] {
+						if data != nil && int64(len(v.Data)) == a.size && string(data) == string(v.Data) {
+							superseded = true
+						}
+					}
+				}
+			}
+			if superseded {
+				s.t.Class("version-superseded-during-cleaning")
+				continue
+			}
 			w.viol("C20", "cleaning-truncated-file", "%s shrank from %d to %d bytes during cleaning", rel, e.size, a.size)
 		}
 	}
